@@ -148,8 +148,11 @@ asn_encode(const asn_codec_ctx_t *opt_codec_ctx,
     er = asn_encode_internal(opt_codec_ctx, syntax, td, sptr,
                              callback_failure_catch_cb, &cb_key);
     if(cb_key.callback_failed) {
-        assert(er.encoded == -1);
-        assert(errno == EBADF);
+        /*
+         * Whatever the codec made of the callback's refusal
+         * (some code paths do not propagate it), report it as documented.
+         */
+        er.encoded = -1;
         errno = EIO;
     }
 
